@@ -12,6 +12,7 @@
 //	provider.get                  token.Provider.GetToken (findBlock + block cache)     vs SV.Pattern.providerGetTokens
 //	spec.leaf                     check of the real searchers                          vs SV.Spec.Leaf.valMatch (shared Spec)
 //	sealed.sequence               call sequences on one sealedTokenIndex               vs SV.Pattern.sealedSearchSeq (stateless)
+//	seqql.range                   query text -> real parsers -> pattern.Search         vs SV.Pattern.search on the ends verbatim
 //	table.select                  token.Table.SelectEntries                            vs SV.Pattern.selectEntries
 //	sealed.search                 sealedTokenIndex.GetTIDsByTokenExpr (hand-built table) vs SV.Pattern.sealedSearch
 //
@@ -594,8 +595,8 @@ type H struct {
 	rep *vh.Report
 	rnd *vh.RNG
 
-	chPf, chFind, chSeq, chCheck, chGlob, chParse, chRange, chSearch, chActive, chProvider, chSelect, chSealed, chSeq2, chSpec *vh.Channel
-	orGlob, orSearch, orRange, orFrac                                                                                          *vh.Oracle
+	chPf, chFind, chSeq, chCheck, chGlob, chParse, chRange, chSearch, chActive, chProvider, chSelect, chSealed, chSeq2, chSpec, chSeqQL *vh.Channel
+	orGlob, orSearch, orRange, orFrac                                                                                                   *vh.Oracle
 }
 
 func (h *H) violate(site, class, what string, replay ...string) {
@@ -809,6 +810,7 @@ func main() {
 	h.chActive = vh.NewChannel("active.find", "real frac.TokenList (NewActiveTokenList + Append in several batches, two fields) FindPattern vs SV.Pattern.activeFind on the (tid, value) pairs read back from the list; small exhaustive and random dictionaries, literal / wildcard / range tokens; non-trivial = non-empty answer")
 	h.chProvider = vh.NewChannel("provider.get", "token.Provider.GetToken call sequences (ascending, descending, random jumps - exercising the cached-block fast path and the binary search) over hand-built tables vs SV.Pattern.providerGetTokens; all layouts of small dictionaries, random larger; non-trivial = more than one block")
 	h.chSeq2 = vh.NewChannel("sealed.sequence", "SEQUENCES of GetTIDsByTokenExpr calls on ONE sealedTokenIndex (as one query serves all its leaves) vs SV.Pattern.sealedSearchSeq (stateless: call-by-call sealedSearch): same field with longer-then-shorter and shorter-then-longer leading literals, empty hints (*x patterns, ranges), a second field interleaved; every block layout of small dictionaries; non-trivial = >1 block and >1 call on the same field")
+	h.chSeqQL = vh.NewChannel("seqql.range", "query TEXT -> parser.ParseSeqQL / parser.ParseQuery -> pattern.Search (ordered and unordered providers) vs SV.Pattern.search on the range whose ends are the quoted literals VERBATIM: ends with outer spaces/tabs, empty, whitespace-only, numeric only after trimming, all bracket pairs, tokens differing from an end only by that whitespace; non-trivial = at least one given end")
 	h.chSpec = vh.NewChannel("spec.leaf", "the real pattern package (literalSearch/wildcardSearch.check, range searcher check) vs the SHARED Spec's Leaf.valMatch (Spec/Store.lean: globMatch, bytesLt/Le, numVal): every pattern over {a,b,*} x every token over {a,b} up to the length bound; ranges (a) against valMatch on the fragment where ParseFloat and Spec.numVal agree (every string involved is a decimal integer of <= 15 digits or is rejected by ParseFloat) and (b) ALL range cases against Leaf.valMatchWith pf (Spec/StoreNum.lean) with pf = the same ParseFloat key table the harness gives the model; non-trivial = wildcard pattern or a given range end")
 	h.chSelect = vh.NewChannel("table.select", "token.Table.SelectEntries vs SV.Pattern.selectEntries: every sorted dictionary over a small universe in every block layout x hints; non-trivial = >1 block and non-empty hint")
 	h.chSealed = vh.NewChannel("sealed.search", "sealedTokenIndex.GetTIDsByTokenExpr over a hand-built table with pre-loaded blocks vs SV.Pattern.sealedSearch; every dictionary <= 6 tokens over a small universe in every block layout; non-trivial = >1 block and non-empty answer")
@@ -833,6 +835,7 @@ func main() {
 		h.genCheck()
 		h.genParse()
 		h.genRange()
+		h.genSeqQLRange()
 		h.genDigits()
 		h.genSearch()
 		h.genSealed()
@@ -841,7 +844,7 @@ func main() {
 		h.genFrac()
 	}
 
-	for _, c := range []*vh.Channel{h.chPf, h.chFind, h.chSeq, h.chCheck, h.chGlob, h.chParse, h.chRange, h.chSearch, h.chActive, h.chProvider, h.chSealed, h.chSeq2, h.chSpec} {
+	for _, c := range []*vh.Channel{h.chPf, h.chFind, h.chSeq, h.chCheck, h.chGlob, h.chParse, h.chRange, h.chSearch, h.chActive, h.chProvider, h.chSealed, h.chSeq2, h.chSpec, h.chSeqQL} {
 		if o.Only == "" || o.Only == c.Name {
 			rep.AddChannel(c, o.Driver)
 		}
@@ -967,6 +970,8 @@ func (h *H) replay(line string) error {
 		h.opSealed(t, uint32(base), blocks, make([]bool, len(blocks)))
 	case "sealedseq":
 		return h.replaySealedSeq(f)
+	case "seqqlrange":
+		return h.replaySeqQLRange(f)
 	case "frac":
 		return h.replayFrac(f)
 	default:
